@@ -265,9 +265,17 @@ class Translator:
                 else:
                     out.append("SAssign %s %s" % (lst([cstr(n) for n in target_names(t)]), self.expr(s.value)))
             elif isinstance(s, ast.AugAssign):
-                if not isinstance(s.target, ast.Name) or type(s.op) not in BIN:
-                    raise Unsupported("augmented assignment")
-                out.append("SAug %s %s %s" % (cstr(s.target.id), BIN[type(s.op)], self.expr(s.value)))
+                if type(s.op) not in BIN:
+                    raise Unsupported("augmented assignment operator")
+                t = s.target
+                if (isinstance(t, ast.Subscript) and isinstance(t.value, ast.Name)
+                        and not isinstance(t.slice, (ast.Slice, ast.Tuple))):
+                    out.append("SAugItem %s %s %s %s" % (cstr(t.value.id), self.expr(t.slice), BIN[type(s.op)],
+                                                         self.expr(s.value)))
+                elif isinstance(t, ast.Name):
+                    out.append("SAug %s %s %s" % (cstr(t.id), BIN[type(s.op)], self.expr(s.value)))
+                else:
+                    raise Unsupported("augmented assignment target")
             elif isinstance(s, ast.If):
                 out.append("SIf %s %s %s" % (self.expr(s.test), self.stmts(s.body), self.stmts(s.orelse)))
             elif isinstance(s, ast.For):
@@ -317,8 +325,10 @@ class Fresh:
         self.tr = tr
 
     def kind(self, e):
-        if isinstance(e, ast.List):
+        if isinstance(e, (ast.List, ast.ListComp)):
             return "list"
+        if isinstance(e, ast.Constant) and e.value is None:
+            return "none"        # not an object that can be mutated; joins with a fresh list / array
         if isinstance(e, ast.Call) and not e.keywords:
             if isinstance(e.func, ast.Name) and e.func.id in FRESH_LIST_CALLS:
                 return "list"
@@ -332,6 +342,10 @@ class Fresh:
             return
         if isinstance(e, ast.Name):
             out.add(e.id)
+        elif (isinstance(e, ast.Compare) and len(e.ops) == 1 and isinstance(e.ops[0], (ast.Is, ast.IsNot))
+              and isinstance(e.left, ast.Name) and isinstance(e.comparators[0], ast.Constant)
+              and e.comparators[0].value is None):
+            pass                 # x is None: no alias
         elif isinstance(e, ast.Subscript) and isinstance(e.value, ast.Name):
             self.escaping(e.slice, out)
         elif (isinstance(e, ast.Call) and isinstance(e.func, ast.Name) and e.func.id == "len" and len(e.args) == 1
@@ -340,6 +354,19 @@ class Fresh:
         else:
             for c in ast.iter_child_nodes(e):
                 self.escaping(c, out)
+
+    @staticmethod
+    def join(a, b):
+        out = {}
+        for k, v in a.items():
+            w = b.get(k)
+            if w == v:
+                out[k] = v
+            elif v == "none" and w in ("list", "array"):
+                out[k] = w
+            elif w == "none" and v in ("list", "array"):
+                out[k] = v
+        return out
 
     def drop(self, state, names):
         for n in names:
@@ -373,7 +400,12 @@ class Fresh:
                         state[names[0]] = k
             elif isinstance(s, ast.AugAssign):
                 self.escaping(s.value, esc)
-                self.drop(state, esc | {s.target.id})
+                if isinstance(s.target, ast.Subscript):
+                    self.escaping(s.target.slice, esc)
+                    self.drop(state, esc)
+                    self.need(state, s.target.value.id, ("list", "array"), frozen, "item update")
+                else:
+                    self.drop(state, esc | {s.target.id})
             elif isinstance(s, ast.If):
                 self.escaping(s.test, esc)
                 self.drop(state, esc)
@@ -382,7 +414,7 @@ class Fresh:
                 self.block(s.body, a, frozen)
                 self.block(s.orelse, b, frozen)
                 state.clear()
-                state.update({k: v for k, v in a.items() if b.get(k) == v})
+                state.update(self.join(a, b))
             elif isinstance(s, ast.For):
                 self.escaping(s.iter, esc)
                 self.drop(state, esc | set(target_names(s.target)))
@@ -391,7 +423,7 @@ class Fresh:
                     a = dict(state)
                     self.drop(a, target_names(s.target))
                     self.block(s.body, a, inner_frozen)
-                    joined = {k: v for k, v in state.items() if a.get(k) == v}
+                    joined = self.join(state, a)
                     if joined == state:
                         break
                     state.clear()
